@@ -440,6 +440,17 @@ macro_rules! family {
     };
 }
 
+/// shipped types that are documented NOT to be lattices (DomPair over a partially ordered key):
+/// merge / comparisons / bottom / Default / LatticeFrom are exercised, the C01 laws are not
+macro_rules! family_nolaws {
+    ($es:ident, $ty:literal, recv [$($R:ty),*], extra [$($X:ty),*]) => {
+        merges!($es, $ty, [$($R),*], [$($R,)* $($X),*]);
+        cmps!($es, $ty, [$($R,)* $($X),*], [$($R,)* $($X),*]);
+        froms!($es, $ty, [$($R),*], [$($R,)* $($X),*]);
+        unaries!($es, $ty, [$($R,)* $($X),*]);
+    };
+}
+
 type HS = SetUnionHashSet<u8>;
 type BS = SetUnionBTreeSet<u8>;
 type VS = SetUnionVec<u8>;
@@ -561,6 +572,12 @@ fn catalogue() -> Vec<Entry> {
     defaults!(es, "dom_wbmax_max", [DomPair<WithBot<MX>, MX>]);
     family!(es, "dom_min_wt", recv [DomPair<MN, WithTop<HS>>, DomPair<MN, WithTop<BS>>], extra [DomPair<MN, WithTop<SS>>]);
     defaults!(es, "dom_min_wt", [DomPair<MN, WithTop<HS>>]);
+    // ---- DomPair over PARTIALLY ordered keys (not a lattice; documented join: greater key wins,
+    // equal or incomparable keys merge key and value)
+    family_nolaws!(es, "dom_set_set", recv [DomPair<HS, HS>, DomPair<BS, BS>], extra [DomPair<SS, SS>, DomPair<OS, HS>]);
+    defaults!(es, "dom_set_set", [DomPair<HS, HS>, DomPair<BS, BS>]);
+    family_nolaws!(es, "dom_vc_max", recv [DomPair<HM<MX>, MX>, DomPair<BM<MX>, MX>], extra [DomPair<SM<MX>, MX>]);
+    defaults!(es, "dom_vc_max", [DomPair<HM<MX>, MX>, DomPair<BM<MX>, MX>]);
     // ---- vec
     family!(es, "vec_max", recv [VecUnion<MX>], extra []);
     defaults!(es, "vec_max", [VecUnion<MX>]);
